@@ -14,7 +14,7 @@ RULE = ('sequences of complete file sections (kind x ending: modified/added/dele
 ASSUMPTIONS = ['each section is a complete file diff as git prints it (starts with its own "diff --git" line)']
 CHUNK = 4
 
-KINDS = gen.SECTION_KINDS + ['submodule_short', 'submodule_log', 'binary_noindex', 'combined_binary', 'combined', 'combined_conflict', 'submodule_deleted']
+KINDS = gen.SECTION_KINDS + ['submodule_short', 'submodule_log', 'binary_noindex', 'combined_binary', 'combined', 'combined_conflict', 'combined_conflict_open', 'submodule_deleted']
 ENDINGS = [' ', '-', '+', '\\']
 
 MODES = {
@@ -75,10 +75,13 @@ def make_section_lines(rng, shape, idx, same=None):
                 'Binary files a/old%d/logo.png and b/new%d/logo2.png differ' % (idx, idx)]
     if kind == 'combined_binary':
         return ['diff --cc assets%d/icon.png' % idx, 'index 5555555,6666666..7777777', 'Binary files differ']
-    if kind in ('combined', 'combined_conflict'):
-        conflict = kind == 'combined_conflict' or rng.random() < 0.3
+    if kind in ('combined', 'combined_conflict', 'combined_conflict_open'):
+        conflict = kind != 'combined' or rng.random() < 0.3
+        # (_open: the last region of the file is never closed - its '>>>>>>>' marker already deleted while resolving: what
+        # was collected for it goes out, and away, when the next section begins)
         ls, _m, _p = corpus.gen_combined(rng, conflict=conflict, nconflicts=rng.choice([1, 1, 2]), styles=('diff3', 'merge'),
-                                         lead=rng.choice([None, None, 0]) if conflict else None)     # (no hunk without lines)
+                                         lead=rng.choice([None, None, 0]) if conflict else None,     # (no hunk without lines)
+                                         unterminated=kind == 'combined_conflict_open')
         ls = [l.replace(_p, 'cc%d/%s' % (idx, _p)) if l.startswith(('diff --cc', '--- ', '+++ ')) else l for l in ls]
         return ls
     s = gen.gen_section(rng, kind, simple_paths=True, maxlines=6, maxlen=50)
